@@ -27,7 +27,7 @@ class Run:
         self.t0 = time.time()
         self.violations = []
         self.known_hits = []
-        self.known = [k for k in load_known() if k.get("property") == pid and k.get("status") == "open"]
+        self.known = [k for k in load_known() if (k.get("property") == pid or pid in k.get("properties", [])) and k.get("status") == "open"]
         self.machinery_errors = []
         os.makedirs(REPLAY, exist_ok=True)
 
